@@ -31,20 +31,22 @@ def recipes(c, nd, r):
     return [['knot', 'mid', 'knot'][:nd], ['mid', 'knot', 'mid'][:nd]]
 
 
-def build_world(root, cube, K, ulo, uhi, nd, c, fmt, memmap, r, distance_unit='kpc'):
+def build_world(root, cube, K, ulo, uhi, nd, c, fmt, memmap, r, distance_unit='kpc', theta=None, rc=None):
     from astropy import units as u
     from sedfitter.convolved_fluxes import ConvolvedFluxes
     d = tempfile.mkdtemp(dir=root)
     nm = len(cube)
-    names = NAMES[:nm]
+    names = NAMES[:nm] if nm <= 3 else ['m_%s' % ch for ch in 'hcafbdge'[:nm]]
     dist = [D0 * r ** i for i in range(nd)]
-    rc = recipes(c, nd, r)
-    wavs = fw.band_wavelengths(2)
+    theta = theta or THETA
+    nbands = len(theta)
+    rc = rc or recipes(c, nd, r)
+    wavs = fw.band_wavelengths(nbands)
     os.makedirs(os.path.join(d, 'convolved'))
     step = math.log10(r) * 1.0001 if nd > 1 else 0.02
     fw.write_conf(d, aperture_dependent=True, logd_step=step, version=(1 if fmt == 'perfile' else 2))
-    for j in range(2):
-        req = [THETA[j] * dist[i] * 1000.0 for i in range(nd)]
+    for j in range(nbands):
+        req = [theta[j] * dist[i] * 1000.0 for i in range(nd)]
         knots = []
         vals = [[] for _ in range(nm)]
         for i in range(nd):
@@ -71,7 +73,7 @@ def build_world(root, cube, K, ulo, uhi, nd, c, fmt, memmap, r, distance_unit='k
     if fmt == 'cube':
         pw.cube_object(names, [1.0, 2.0], [100.0, 200.0], lambda m, a, w: 1.0 + m + a + w, lambda m, a, w: 0.1, 'desc').write(os.path.join(d, 'flux.fits'))
     law = fw.make_extinction(K, wavs)
-    ft = fw.make_fitter(d, ['f0', 'f1'], law, ulo, uhi, distance_range=[dist[0], dist[-1]], apertures=THETA, use_memmap=memmap,
+    ft = fw.make_fitter(d, ['f%d' % j for j in range(nbands)], law, ulo, uhi, distance_range=[dist[0], dist[-1]], apertures=theta, use_memmap=memmap,
                         distance_unit=distance_unit)
     return d, ft, dist, names
 
@@ -235,6 +237,79 @@ def grid_sizes(ctx, table, root):
     col.merge_into(ctx)
 
 
+# ---- recorded distance-dependent fits (code -> spec) ----------------------------------------------------
+def record_dist(seeds, root):
+    import math as _m
+    from .common import dec7
+    out = []
+    for sd in seeds:
+        rng = random.Random(sd)
+        nb = rng.choice([2, 3, 3])
+        nd = rng.randint(1, 5)
+        nm = rng.randint(1, 5)
+        ratio = rng.choice([2, 10])
+        while True:
+            K = [rng.randint(0, 4) for _ in range(nb)]
+            if any(K):
+                break
+        base = [[rng.randint(-12, 12) for _ in range(nb)] for _ in range(nm)]
+        cube = [[[base[m][j] - (8 if ratio == 10 else 2) * i + rng.randint(-3, 3) for j in range(nb)] for i in range(nd)] for m in range(nm)]
+        if nm > 1 and rng.random() < 0.3:
+            cube[-1] = [list(r_) for r_ in cube[0]]
+        lo = rng.choice([-160, 0, 0, 4])
+        hi = lo + rng.choice([0, 8, 40, 400])
+        theta = [rng.choice([0.5, 1.0, 2.0, 3.0]) for _ in range(nb)]
+        rc = [[rng.choice(['knot', 'mid']) for _ in range(nd)] for _ in range(nb)]
+        fmt = rng.choice(['perfile', 'cube'])
+        try:
+            d, ft, dist, names = build_world(root, cube, K, lo, hi, nd, 0, fmt, False, ratio, distance_unit=rng.choice(['kpc', 'pc']), theta=theta, rc=rc)
+        except Exception as e:
+            out.append([{'ev': 'Load', 'K': K, 'ulo': lo, 'uhi': hi, 'cube': cube}, {'ev': 'LoadRaised', 'why': repr(e)[:200]}])
+            continue
+        try:
+            tr = [{'ev': 'Load', 'K': K, 'ulo': lo, 'uhi': hi, 'cube': cube}]
+            for _ in range(rng.randint(1, 5)):
+                while True:
+                    flags = [rng.choice([0, 1, 1, 1, 2, 3, 4, 4, 9]) for _ in range(nb)]
+                    if any(f in (1, 4) and K[j] for j, f in enumerate(flags)):
+                        break
+                src = {'flag': flags, 'Y': [rng.randint(-20, 20) for _ in range(nb)], 'W': [rng.choice([1, 4]) for _ in range(nb)],
+                       'P': [rng.choice([0, 1, 2, 6, -1]) for _ in range(nb)]}
+                info = ft.fit(fw.make_source(src))
+                rows = []
+                for i_ in range(len(info.chi2)):
+                    nm_ = str(info.model_name[i_]).strip()
+                    sc = float(info.sc[i_])
+                    chi = float(info.chi2[i_])
+                    isnan = any(_m.isnan(x) for x in (sc, chi, float(info.av[i_])))
+                    di = 0
+                    if not isnan:
+                        k_ = int(np.argmin([abs(_m.log10(x) - sc) for x in dist]))
+                        di = k_ + 1 if abs(_m.log10(dist[k_]) - sc) < 1e-9 else 0
+                    big = int(round(chi / 1e30)) if (not isnan and chi >= 5e29) else 0
+                    rows.append({'m': names.index(nm_) + 1 if nm_ in names else 0, 'di': di, 'nan': int(isnan), 'av': dec7(0 if isnan else info.av[i_]),
+                                 'chi': dec7(0 if (isnan or big) else chi), 'big': big})
+                tr.append({'ev': 'Fit', 'flag': src['flag'], 'Y': src['Y'], 'W': src['W'], 'P': src['P'], 'rows': rows})
+            out.append(tr)
+        finally:
+            shutil.rmtree(d, ignore_errors=True)
+    return out
+
+
+def dist_traces(ctx, n, pid='C02'):
+    from .common import validate_traces
+    root = ctx.mkdtemp('dtr')
+    seeds = [ctx.seed * 50021 + i for i in range(n)]
+    trs = []
+    for part in pmap(lambda c: record_dist(c, root), seeds):
+        trs.extend(part)
+    ctx.sample({'trace': trs[0]})
+    rejected = validate_traces(ctx, 'Trace_FitDist', 'Trace_FitDist.cfg', trs, chunk=500)
+    for idx, viol in rejected[:10]:
+        ctx.violation('%s:trace:%s' % (pid, viol[0][1] if viol else '?'), 'recorded distance-dependent fits rejected by Trace_FitDist: %r' % (viol,),
+                      {'trace': trs[idx], 'viol': viol})
+
+
 def run(ctx):
     q = not ctx.thorough
     cfg = ctx.tmp('fd.cfg')
@@ -267,5 +342,6 @@ def run(ctx):
         for col in cols:
             col.merge_into(ctx)
     grid_sizes(ctx, table, root)
+    dist_traces(ctx, 200 if q else 2000)
     ctx.assumptions += ['aperture tables are constructed by the harness from the desired cube (on a knot / midway between two knots / beyond the largest knot); the construction is checked exactly by TLC on integer-dex instances',
                         'distance grids are geometric (ratio 2 or 10) with logd_step chosen off the exact multiple; the reported scale is compared with log10 of the grid distance by index']
